@@ -557,6 +557,24 @@ class PE:
                 return ("b", math.copysign(1.0, x) < 0)
             if tail == "is_sign_positive":
                 return ("b", math.copysign(1.0, x) > 0)
+            if tail == "to_bits":
+                return ("i", struct.unpack("<Q", struct.pack("<d", x))[0])
+            if tail == "total_cmp":
+                y = a(1)
+                if y is None or y[0] != "f":
+                    return UNK
+                def key(v):
+                    bits = struct.unpack("<q", struct.pack("<d", v))[0]
+                    return bits ^ (((bits >> 63) & 0xFFFFFFFFFFFFFFFF) >> 1) if bits < 0 else bits
+                kx, ky = key(x), key(y[1])
+                # std's total_cmp: flip the magnitude bits of negatives, then compare as signed integers
+                def tk(v):
+                    b = struct.unpack("<q", struct.pack("<d", v))[0]
+                    if b < 0:
+                        b ^= 0x7FFFFFFFFFFFFFFF
+                    return b
+                kx, ky = tk(x), tk(y[1])
+                return ("adt", 0 if kx < ky else (1 if kx == ky else 2), ())
             return UNK
         if cal in ("std::cmp::PartialEq::eq", "std::cmp::PartialEq::ne"):
             if self.eq_ok is not None and not self.eq_ok(c):
